@@ -269,6 +269,9 @@ def _leaves(tier, seed):
                                [100] * d):
                     if scales is not None and abs(sum(scales)) <= 900 and (tier != 'quick' or d <= 3):
                         out.append(dict(shape=sh, ranks=rk, pat='gen', scales=scales, seed=seed))
+    for sh, rk in (([2, 150], [1, 2, 1]), ([150, 2], [1, 3, 1]), ([3, 40, 2], [1, 3, 2, 1]), ([2] * 8, [1, 2, 3, 4, 4, 3, 2, 2, 1]), ([1, 60, 1], [1, 4, 4, 1])):
+        for pat in ('gen', 'dup', 'zslice'):
+            out.append(dict(shape=sh, ranks=rk, pat=pat, seed=seed))
     return out
 
 
@@ -276,5 +279,6 @@ def strata(tier, seed):
     ls = _leaves(tier, seed)
     yield Stratum('every pivot x stab', ls, 'pivots', size=len(ls), chunk=16, bounds={'leaves': len(ls)})
     gl = [dict(l, depth=(3 if tier == 'quick' else (4 if len(l['shape']) <= 3 else 3))) for l in ls
-          if not l.get('scales') and l['pat'] in ('gen', 'dup', 'intA') and (tier != 'quick' or max(l['ranks']) <= 2 or len(l['shape']) == 2)]
+          if not l.get('scales') and l['pat'] in ('gen', 'dup', 'intA') and max(l['shape']) <= 4 and len(l['shape']) <= 4
+          and (tier != 'quick' or max(l['ranks']) <= 2 or len(l['shape']) == 2)]
     yield Stratum('single-step graph', gl, 'graph', size=len(gl), chunk=4, bounds={'depth': sorted({g['depth'] for g in gl})})
